@@ -110,7 +110,7 @@ fn boundary(buf: &[u8]) -> bool {
 
 pub fn run_c02(ctx: &Ctx) -> ! {
     let k = ctx.tier.pick(48usize, 1536);
-    let nrand = ctx.tier.pick(400_000u64, 24_000_000);
+    let nrand = ctx.tier.pick(400_000u64, 100_000_000);
     let kops = ctx.tier.pick(2usize, 64);
     let mut st = parallel(|w, st| {
         let mut rng = ctx.rng(2, w as u64);
